@@ -577,6 +577,9 @@ func genHard(g *core.Gen) {
 			}
 		}
 	}
+	for _, b := range []byte{0x00, 0x01, 0x10, 0x11, 0x4f, 0x80, 0x81, 0x82, 0xff} { // one-byte payloads: OP_0, OP_1..16, OP_1NEGATE forms
+		gc(g, "nds-1byte", true, "C16 nds mainnet "+hx([]byte{b}))
+	}
 	// MultiSigScript: 0..20 keys (small-int opcodes end at 16), nreq below / at / above the key count
 	var pool [][]byte
 	for i := 0; i < 8; i++ {
